@@ -25,6 +25,12 @@ CHECKS["C12"] = dict(
     text="Both wrappers are called by a simulated C caller for every listed output-window size around the needed size and zstd's compress_bound, with an internal panic injected at the first/middle/last passage of every hook site each call reaches, with fd 1 on /dev/full, and with torn/smashed/foreign decompress input. Oracle: guard bytes and input untouched, process alive, status 0 only with result_size <= window and valid bytes (decompress gives F, compress output decompresses to F), undersized gives negative, sufficient gives 0, any fired fault gives negative. Capacities and injection points are enumerated per workload; workloads are sampled from the seed.",
     note="Trusted: 4 KiB guard areas (a wild write beyond them is invisible), zstd as frame classifier. Compression windows in [needed, compress_bound) may succeed or fail. After a fired fault only negativity is required. Damaged input that zstd accepts is not executed.")
 
+CHECKS["C14"] = dict(
+    engine="simstore-sched", category="exploration", design_ref="DESIGN.md 5.6",
+    technique="deterministic simulation of caller threads: real OS threads under a seeded baton scheduler (random walk / PCT / round robin) that owns every context switch at guarded hook points and call boundaries; sequential reference model; fresh-process reference in opposite order; recorded schedules replay exactly and are minimised",
+    text="Seeded search over schedules of 1-16 real threads calling all public entry points (including both C wrappers) on shared and distinct inputs; every result must be byte-identical to a sequential reference, to a repeat in the same process in the opposite order, and to a fresh process. A clean batch is evidence, not proof: interleavings are sampled, and only at hook points.",
+    note="Trusted: the baton scheduler (one holder at a time), the hook points as the only preemption points (a race window without a hook point is only reachable by the Miri arm), exit codes as error identity.")
+
 NOT_APPLICABLE = {
     "C01": "pure function of the input file (for all byte strings F): no schedule, I/O outcome, resource limit or crash point in the statement; truncating/flipping foreign input is input generation, not fault injection. Incidental coverage only (fault-free round trip is a precondition of every C11-C13 workload and rejections are counted).",
     "C02": "pure function of the input stream and the verify flag; no seam for the environment to vary. Incidental: the unperturbed runs of C08 and the current-build reads of C04 execute the identity.",
@@ -39,7 +45,6 @@ NOT_APPLICABLE = {
 PENDING = {
     "C04": "applicable (upgrade simulation, DESIGN.md 5.4) but the check is not built yet in this revision; not claimed until it runs",
     "C08": "applicable (buggify at the estimator seam, DESIGN.md 5.5) but the check is not built yet in this revision; not claimed until it runs",
-    "C14": "applicable (baton scheduler, DESIGN.md 5.6) but the check is not built yet in this revision; not claimed until it runs",
 }
 
 def main():
